@@ -156,10 +156,11 @@ PROPS = {
             "([x],[]) vs ([],[x])), pairs of DenseNatMap<Id,u8>, and ActorModelState<_,u8> with 1 (thorough 2) actors over ALL actor "
             "states, histories and crash-flag vectors (timers, random choices, network empty): states differing only in a crash flag are "
             "different states with different streams; pairs of HashableHashSet<u8> / HashableHashMap<u8,u8> (Vec-backed container model, REAL order-insensitive Hash code) "
-            "holding one element on either side, and (thorough) the same two elements inserted in either order. (Single VectorClock coherence is decided in C20's hash harnesses.)"
+            "holding one element on either side, and (thorough) the same two elements inserted in either order, a single-entry HashableHashMap<u8,u8> that determines key AND value in their roles "
+            "({k->v} vs {v->k}, {k->k} vs {k2->k2}), and one-actor ActorModelStates that differ only in a set timer ({} / {t1} / {t2}) or only in an in-flight message (duplicating network, {} / {m1} / {m2}). (Single VectorClock coherence is decided in C20's hash harnesses.)"
         ),
         "bounds": {"clock_len": "0..=2 per clock in pairs", "map_len": "0..=3", "actors": "1 (thorough 2; measured 688 s)", "components": "full u32 / u8", "unwind": "3-11"},
-        "outside": ["hash containers with more than 1-2 elements, nested ones, capacity/seed independence of the REAL hashbrown tables (the containers are modelled), Timers/Network/RandomChoices with elements inside ActorModelState, the consistency testers", "random_choices missing from ActorModelState identity (DESIGN 5.4)", "reachable states of arbitrary actor models"],
+        "outside": ["hash containers with more than 1-2 elements, nested ones, capacity/seed independence of the REAL hashbrown tables (the containers are modelled), Timers/Network with more than one element and non-duplicating/ordered networks with messages inside ActorModelState (one set timer / one in-flight message on a duplicating network are covered in the thorough tier), RandomChoices (known finding), the consistency testers", "random_choices missing from ActorModelState identity (DESIGN 5.4)", "reachable states of arbitrary actor models"],
         "assumptions": COMMON_ASSUME + HASHSET_ASSUME + MODELS_ASSUME,
     },
     "C09": {
